@@ -36,6 +36,21 @@ def Ctx.get : Ctx → Key → String
 /-- `ctx = context.WithValue(ctx, k, v)` -/
 def withValue (c : Ctx) (k : Key) (v : String) : Ctx := (k, v) :: c
 
+/-- a message context with values of the application in it as well: the router's keys are constants of the private
+    type `ctxKey`, the application can only use keys of other types (plain strings, its own types) – `context.Value`
+    compares dynamic type AND value, so a key text like "handler_name" used by the application is a different key -/
+inductive AnyKey
+  | router (k : Key)
+  | app (name : String)
+  deriving DecidableEq, Repr, Inhabited
+
+abbrev MixCtx := List (AnyKey × String)
+
+/-- `valFromCtx` on such a context -/
+def MixCtx.get : MixCtx → Key → String
+  | [], _ => ""
+  | (k', v) :: rest, k => if k' = .router k then v else MixCtx.get rest k
+
 /-! ### configuration -/
 
 structure HCfg where
